@@ -224,7 +224,12 @@ pub mod parser {
     /// a = {fill: red}
     /// b = {stroke: blue}
     fn css_style_list<'a>() -> Parser<'a, char, Vec<(String, String)>> {
-        list(class_and_style(), new_line())
+        list(class_and_style(), new_line() - blank_lines())
+    }
+
+    /// any number of lines that hold nothing but blanks
+    fn blank_lines<'a>() -> Parser<'a, char, ()> {
+        (space() - new_line()).repeat(0..).discard()
     }
 
     /// a = {fill: red}
@@ -245,7 +250,8 @@ pub mod parser {
             - space()
             - tag("Legend:")
             - space()
-            - (new_line() | end()))
+            - (new_line() | end())
+            - blank_lines())
             * css_style_list()
     }
 
